@@ -8,6 +8,9 @@ import (
 	"fmt"
 	"math"
 	"os"
+	"runtime"
+	"strings"
+	"sync"
 
 	"github.com/ozanh/ugo"
 	"github.com/ozanh/ugo/token"
@@ -66,6 +69,35 @@ func opsDomain(thorough bool) []opVal {
 		)
 	}
 	return d
+}
+
+// opsLits: how each domain value is written in a script.  Values without a
+// source form (NaN, infinities, -0.0, the minimal int, errors, functions)
+// take part only as parameters.
+var opsLits = map[string]string{
+	"undef": "undefined", "true": "true", "false": "false",
+	"i0": "0", "i1": "1", "i2": "2", "i3": "3", "im1": "-1", "i97": "97", "imax": "9223372036854775807",
+	"i5": "5", "im2": "-2", "i64": "64", "i63": "63", "im97": "-97",
+	"u0": "0u", "u1": "1u", "u2": "2u", "u97": "97u", "umax": "18446744073709551615u", "u3": "3u", "u5": "5u", "u64": "64u",
+	"uhalf": "9223372036854775808u",
+	"f0":    "0.0", "f1": "1.0", "f2": "2.0", "f97": "97.0", "f1_5": "1.5", "f3": "3.0", "fm1": "-1.0", "f0_5": "0.5",
+	"fbig": "1e300", "fsmall": "5e-324",
+	"c0": "'\\x00'", "c1": "'\\x01'", "c2": "'\\x02'", "c3": "'\\x03'", "ca": "'a'", "cb": "'b'",
+	"cm1": "char(-1)", "cmax": "char(2147483647)", "cmin": "char(-2147483648)",
+	"s_empty": `""`, "s_a": `"a"`, "s_b": `"b"`, "s_ab": `"ab"`, "s_1": `"1"`, "s_bad": `"\xff"`,
+	"b_empty": "bytes()", "b_a": `bytes("a")`, "b_b": `bytes("b")`, "b_ab": `bytes("ab")`,
+	"a_empty": "[]", "a_i1": "[1]", "a_f1": "[1.0]", "a_u1": "[1u]", "a_nest": "[[1]]", "a_nestf": "[[1.0]]",
+	"a_i1i2": "[1, 2]", "a_true": "[true]", "a_undef": "[undefined]", "a_c1": "['\\x01']",
+	"m_empty": "{}", "m_i1": "{k: 1}", "m_f1": "{k: 1.0}", "m_u1": "{k: 1u}", "m_nest": "{k: [1]}", "m_nestf": "{k: [1.0]}",
+	"m_k2": "{j: 1}", "m_true": "{k: true}",
+}
+
+// projection of a result, the same string the table carries as "script"
+func opsProj(rec map[string]any) string {
+	if rec["kind"] == "panic" {
+		return "panic"
+	}
+	return fmt.Sprint(rec["kind"], "/", rec["rt"], "/", rec["rname"], "/", rec["hasrnum"], "/", rec["rnum"], "/", rec["rbool"])
 }
 
 func init() {
@@ -141,52 +173,151 @@ func init() {
 			}
 		}
 		blank := func(op, a, b string) map[string]any {
-			return map[string]any{"ev": "op", "op": op, "a": a, "b": b, "kind": "", "rt": "", "rname": "", "rnum": 0, "hasrnum": false, "rbool": false, "direct": ""}
+			return map[string]any{"ev": "op", "op": op, "a": a, "b": b, "kind": "", "rt": "", "rname": "", "rnum": 0, "hasrnum": false, "rbool": false, "direct": "", "lita": "", "litb": "", "litab": "", "constb": "", "asg": ""}
 		}
-		for _, op := range ops {
+		for i := range dom {
+			if opsLits[dom[i].Name] == "" {
+				continue
+			}
+			// the source form must denote exactly the domain value, or the harness is wrong
+			bc, err := ugo.Compile([]byte("return "+opsLits[dom[i].Name]), ugo.CompilerOptions{NoOptimize: true})
+			if err != nil {
+				return fmt.Errorf("literal %s: %v", dom[i].Name, err)
+			}
+			ret, err := ugo.NewVM(bc).Run(nil)
+			if err != nil || ret.TypeName() != dom[i].Obj.TypeName() || !ret.Equal(dom[i].Obj) {
+				return fmt.Errorf("literal %s = %s denotes %v (%v), not the domain value", dom[i].Name, opsLits[dom[i].Name], ret, err)
+			}
+		}
+		// one run of a presentation: compile with the default options (optimizer on) and project the outcome
+		present := func(src string, args ...ugo.Object) string {
+			rec := blank("", "", "")
+			func() {
+				defer func() {
+					if r := recover(); r != nil {
+						rec["kind"] = "panic"
+					}
+				}()
+				bc, err := ugo.Compile([]byte(src), ugo.CompilerOptions{})
+				if err != nil {
+					// a folded expression may be rejected at compile time with the error the VM would raise
+					rec["kind"] = "error"
+					rec["rname"] = "?" + err.Error()
+					for _, n := range []string{"TypeError", "ZeroDivisionError", "InvalidOperatorError"} {
+						if strings.Contains(err.Error(), n) {
+							rec["rname"] = n
+						}
+					}
+					return
+				}
+				ret, err := ugo.NewVM(bc).Run(nil, args...)
+				fill(rec, ret, err)
+			}()
+			return opsProj(rec)
+		}
+		type row struct{ recs []map[string]any }
+		rows := make([]row, len(ops)*len(dom))
+		var wg sync.WaitGroup
+		sem := make(chan struct{}, runtime.NumCPU())
+		var firstErr error
+		var mu sync.Mutex
+		for oi, op := range ops {
 			src := fmt.Sprintf("param (a, b)\nreturn a %s b", op.String())
 			bc, err := ugo.Compile([]byte(src), ugo.CompilerOptions{NoOptimize: true})
 			if err != nil {
 				return err
 			}
-			for _, a := range dom {
-				for _, b := range dom {
-					rec := blank(op.String(), a.Name, b.Name)
-					func() {
-						defer func() {
-							if r := recover(); r != nil {
-								rec["kind"] = "panic"
-								rec["rname"] = fmt.Sprint(r)
-							}
-						}()
-						ret, err := ugo.NewVM(bc).Run(nil, a.Obj, b.Obj)
-						fill(rec, ret, err)
-					}()
-					rec["script"] = fmt.Sprint(rec["kind"], "/", rec["rt"], "/", rec["rname"], "/", rec["hasrnum"], "/", rec["rnum"], "/", rec["rbool"])
-					if rec["kind"] == "panic" {
-						rec["script"] = "panic"
-					}
-					// the Go API (Object.BinaryOp / Equal) must agree with the script-level result
-					func() {
-						defer func() {
-							if r := recover(); r != nil {
-								rec["direct"] = "panic"
-							}
-						}()
-						d := blank("", "", "")
-						switch op {
-						case token.Equal:
-							fill(d, ugo.Bool(a.Obj.Equal(b.Obj)), nil)
-						case token.NotEqual:
-							fill(d, ugo.Bool(!a.Obj.Equal(b.Obj)), nil)
-						default:
-							ret, err := a.Obj.BinaryOp(op, b.Obj)
-							fill(d, ret, err)
-						}
-						rec["direct"] = fmt.Sprint(d["kind"], "/", d["rt"], "/", d["rname"], "/", d["hasrnum"], "/", d["rnum"], "/", d["rbool"])
-					}()
-					out.put(rec)
+			// compound assignment, for the operators that have one
+			var bcAsg *ugo.Bytecode
+			if oi < 11 {
+				bcAsg, err = ugo.Compile([]byte(fmt.Sprintf("param (a, b)\na %s= b\nreturn a", op.String())), ugo.CompilerOptions{})
+				if err != nil {
+					return err
 				}
+			}
+			for ai, a := range dom {
+				wg.Add(1)
+				sem <- struct{}{}
+				go func(oi, ai int, op token.Token, a opVal) {
+					defer func() { <-sem; wg.Done() }()
+					defer func() {
+						if r := recover(); r != nil {
+							mu.Lock()
+							firstErr = fmt.Errorf("row %s %s: %v", op, a.Name, r)
+							mu.Unlock()
+						}
+					}()
+					out := make([]map[string]any, 0, len(dom))
+					for _, b := range dom {
+						rec := blank(op.String(), a.Name, b.Name)
+						func() {
+							defer func() {
+								if r := recover(); r != nil {
+									rec["kind"] = "panic"
+									rec["rname"] = fmt.Sprint(r)
+								}
+							}()
+							ret, err := ugo.NewVM(bc).Run(nil, a.Obj, b.Obj)
+							fill(rec, ret, err)
+						}()
+						rec["script"] = opsProj(rec)
+						// the Go API (Object.BinaryOp / Equal) must agree with the script-level result
+						func() {
+							defer func() {
+								if r := recover(); r != nil {
+									rec["direct"] = "panic"
+								}
+							}()
+							d := blank("", "", "")
+							switch op {
+							case token.Equal:
+								fill(d, ugo.Bool(a.Obj.Equal(b.Obj)), nil)
+							case token.NotEqual:
+								fill(d, ugo.Bool(!a.Obj.Equal(b.Obj)), nil)
+							default:
+								ret, err := a.Obj.BinaryOp(op, b.Obj)
+								fill(d, ret, err)
+							}
+							rec["direct"] = opsProj(d)
+						}()
+						// other ways of writing the same operation, compiled with the optimizer on:
+						// an operand as a literal, both as literals, an operand as a constant, compound assignment
+						if opsLits[b.Name] != "" {
+							rec["litb"] = present(fmt.Sprintf("param a\nreturn a %s %s", op, opsLits[b.Name]), a.Obj)
+							rec["constb"] = present(fmt.Sprintf("param a\nconst k = %s\nreturn a %s k", opsLits[b.Name], op), a.Obj)
+						}
+						if opsLits[a.Name] != "" {
+							rec["lita"] = present(fmt.Sprintf("param b\nreturn %s %s b", opsLits[a.Name], op), b.Obj)
+						}
+						if opsLits[a.Name] != "" && opsLits[b.Name] != "" {
+							rec["litab"] = present(fmt.Sprintf("return %s %s %s", opsLits[a.Name], op, opsLits[b.Name]))
+						}
+						if bcAsg != nil {
+							d := blank("", "", "")
+							func() {
+								defer func() {
+									if r := recover(); r != nil {
+										d["kind"] = "panic"
+									}
+								}()
+								ret, err := ugo.NewVM(bcAsg).Run(nil, a.Obj, b.Obj)
+								fill(d, ret, err)
+							}()
+							rec["asg"] = opsProj(d)
+						}
+						out = append(out, rec)
+					}
+					rows[oi*len(dom)+ai].recs = out
+				}(oi, ai, op, a)
+			}
+		}
+		wg.Wait()
+		if firstErr != nil {
+			return firstErr
+		}
+		for _, r := range rows {
+			for _, rec := range r.recs {
+				out.put(rec)
 			}
 		}
 		for _, op := range []string{"+", "-", "^", "!"} {
